@@ -14,7 +14,7 @@
     - a node enters a [loaded] map only in [load1], at the two frozen places
       ([loaded_stores]). *)
 From Coq Require Import List String Bool Arith.
-From Verif Require Import Caco.Load Caco.LoadProofs Caco.LoadGen Caco.LoadSession Gen.CacoBuild.
+From Verif Require Import Caco.Load Caco.LoadProofs Caco.LoadGen Caco.LoadSession Caco.LoadArgs Gen.CacoBuild.
 Import ListNotations.
 Local Open Scope string_scope.
 
@@ -134,3 +134,40 @@ Proof.
   rewrite nth_error_map, Hk in Hn. simpl in Hn. inversion Hn as [Hr].
   destruct (c11_exec_sound fs roots kind ts ex Hr) as (H1 & H2 & _). split; assumption.
 Qed.
+
+(** ** The arguments of a call are the caller's (Caco/LoadArgs.v)
+
+    [param_writes]: every assignment to an element of a slice or map
+    PARAMETER ([p[i] = ...]) and every [append] / [copy] / [sort.*] whose
+    first argument is a slice parameter, in any function of the package.
+    There is none: no function writes through a slice or map it was handed
+    (in particular [Build] resolves its targets into a new slice, [buildNodes]
+    and [load] only read theirs). *)
+Definition params_not_writtenb : bool := match param_writes with [] => true | _ => false end.
+
+Definition args_policy_of_source : args_policy :=
+  if params_not_writtenb && sk_eqb (firstn 9 sk_builder_Build)
+       [ ("init", "w := b.env.workSrcPath"); ("if", "w != """"");
+         ("decl", "var absPaths []string"); ("range", "_, r := range rules");
+         ("assign", "p := makePath(w, r)"); ("assign", "absPaths = append(absPaths, p)");
+         ("endrange", ""); ("assign", "rules = absPaths"); ("endif", "") ]
+  then ArgsCopied else ArgsInPlace.
+
+Lemma gen_params_not_written : params_not_writtenb = true.
+Proof. vm_compute. reflexivity. Qed.
+
+Lemma gen_args_policy_copied : args_policy_of_source = ArgsCopied.
+Proof. vm_compute. reflexivity. Qed.
+
+Lemma gen_params_not_written_and_copied :
+  params_not_writtenb = true /\ args_policy_of_source = ArgsCopied.
+Proof. split; vm_compute; reflexivity. Qed.
+
+Theorem source_build_does_not_write_targets : forall w slice,
+  snd (build_call args_policy_of_source w slice) = slice.
+Proof. rewrite gen_args_policy_copied. exact build_does_not_write_targets. Qed.
+
+Theorem source_same_slice_same_result : forall fs roots kind w slice n held,
+  lrun loader_policy_of_source fs roots kind (same_slice_calls args_policy_of_source w slice n) held =
+  repeat (c11_run fs roots kind (resolve_targets w slice)) n.
+Proof. rewrite gen_args_policy_copied, gen_loader_policy_per_build. exact same_slice_same_result. Qed.
